@@ -389,8 +389,14 @@ func TestVerifC17amScenarios(t *testing.T) {
 			sc.rep("am-holepunch-addrs-differ", fmt.Sprintf("HolePunchAddrs() = %v", hp))
 		}
 		sw.ListenClose(las[0])
+		// the swarm announces ListenClose from the listener's goroutine, after ListenClose has returned: wait for it
+		// (bounded generously; the ticker would reflect it as well)
+		deadline := time.Now().Add(2 * time.Minute)
+		for time.Now().Before(deadline) && !vfC17amEq(str(h.Addrs()), []string{extra.String()}) {
+			time.Sleep(2 * time.Millisecond)
+		}
 		if got := str(h.Addrs()); !vfC17amEq(got, []string{extra.String()}) {
-			sc.rep("am-closed-listen-address-advertised", fmt.Sprintf("ListenClose returned and Addrs() = %v", got))
+			sc.rep("am-closed-listen-address-advertised", fmt.Sprintf("two minutes after ListenClose Addrs() = %v", got))
 		}
 		n := 0
 		var last event.EvtLocalAddressesUpdated
